@@ -150,6 +150,9 @@ MUTANTS = [
     M("bd5-compact", "model/rangelist_model.py", "RangelistModel.compact", "max(self.range_l[i][1], self.range_l[i + 1][1])", "self.range_l[i + 1][1]", ["C10"], "BD5"),
     M("bd4-draw-from-zero", "model/randomizer.py", "Randomizer.randomize", "self.randstate.randint(range_l[0][0], range_l[0][1])",
       "self.randstate.randint(0, range_l[0][1])", ["C14"], "BD4"),
+    M("ft18-keep-inside", "types.py", "type_base.__setitem__", "curr & ~msk", "curr & msk", ["C18"], "FT18"),
+    M("ft18-narrow-mask", "types.py", "type_base.__setitem__", "rng.start - rng.stop + 1", "rng.start - rng.stop", ["C18"], "FT18"),
+    M("ft3-iter-raw", "types.py", "__next__", "ei.v2e(self.model.field_l[self.idx].get_val())", "int(self.model.field_l[self.idx].get_val())", ["C18"], "FT3"),
     M("sr1-save-after-write", "model/rand_info_builder.py", "RandInfoBuilder.visit_composite_field", "old_used_rand = self._used_rand\nself._used_rand = f.is_used_rand",
       "self._used_rand = f.is_used_rand\nold_used_rand = self._used_rand", ["C02"], "SR1"),
     M("sc1-implies-marker", "model/constraint_implies_model.py", "ConstraintImpliesModel.__init__", "self.cond = cond", "self.cond = cond\nself.priority = 0", ["C01", "C05"], "SC1"),
